@@ -1,4 +1,4 @@
-//@unit subdevice_eeprom  props=C12,C13,C14  min_verified=8
+//@unit subdevice_eeprom  props=C12,C13,C14  min_verified=10
 // SubDeviceEeprom<P>: start_at, category, size (+ EepromRange::new and the dependency's read_exact on top of the
 // EepromRange::read contract proved in unit eeprom_range).
 use vstd::prelude::*;
@@ -349,6 +349,93 @@ impl SubDeviceEeprom {
 /*@fn file=src/subdevice/eeprom.rs impl="impl<P> SubDeviceEeprom<P>" name=size subst="u16::from_le_bytes=>u16_from_le_bytes@@u16::buffer()=>[0u8; 2]" props=C12,C13
     requires self.wf()
     ensures r is Ok ==> r->Ok_0 as int == (self.provider.byte(0x7c) as int + 256 * (self.provider.byte(0x7d) as int) + 1) * 128,
+@*/
+}
+
+// ---- the public EEPROM entry points of SubDevice (src/subdevice/mod.rs): thin wrappers, extracted WHOLE on top of the contracts above ----
+pub struct MainDevice { pub _p: u8 }
+/// the EEPROM behind station address `addr` (the hardware provider DeviceEeprom: unit eeprom_device)
+pub uninterp spec fn eeprom_of(addr: u16) -> Prov;
+pub struct SubDeviceRef { pub configured_address: u16 }
+impl SubDeviceRef {
+    pub fn new(maindevice: &MainDevice, configured_address: u16, state: ()) -> (r: Self)
+        ensures r.configured_address == configured_address
+    { SubDeviceRef { configured_address } }
+    /// `SubDeviceEeprom::new(DeviceEeprom::new(maindevice, configured_address))`
+    #[verifier::external_body]
+    pub fn eeprom(&self) -> (r: SubDeviceEeprom)
+        ensures r.provider == eeprom_of(self.configured_address), r.wf()
+    { unimplemented!() }
+}
+/// stand-in for `T::Buffer` (`[u8; N]`): `T::buffer()` must hold PACKED_LEN bytes - the trait's documented contract; for arrays of
+/// multi-byte items the real impl does not (known finding C19-A1)
+pub struct WireBuf { pub v: Vec<u8> }
+impl WireBuf {
+    #[verifier::external_body]
+    pub fn as_mut(&mut self) -> (r: &mut [u8])
+        ensures r@ == old(self).v@, final(self).v@ == final(r)@
+    { unimplemented!() }
+    #[verifier::external_body]
+    pub fn as_ref(&self) -> (r: &[u8]) ensures r@ == self.v@ { unimplemented!() }
+}
+pub trait EtherCrabWireReadSized: Sized {
+    spec fn packed_len() -> usize;
+    spec fn unpack_spec(b: Seq<u8>) -> Result<Self, WireError>;
+    fn packed_len_exec() -> (r: usize) ensures r == Self::packed_len();
+    fn buffer() -> (r: WireBuf) ensures r.v@.len() == Self::packed_len();
+    fn unpack_from_slice(buf: &[u8]) -> (r: Result<Self, WireError>) ensures r == Self::unpack_spec(buf@);
+}
+pub trait EtherCrabWireWriteSized: Sized {
+    spec fn packed_len() -> usize;
+    spec fn packed(&self) -> Seq<u8>;
+    fn packed_len_exec() -> (r: usize) ensures r == Self::packed_len();
+    fn pack(&self) -> (r: WireBuf) ensures r.v@ == self.packed(), r.v@.len() == Self::packed_len();
+}
+pub struct SubDevice { pub configured_address: u16, pub alias_address: u16 }
+pub open spec fn stored(addr: u16, start_word: u16, n: int) -> Seq<u8> { Seq::new(n as nat, |i: int| eeprom_of(addr).byte(2 * start_word + i)) }
+
+impl SubDevice {
+/*@fn file=src/subdevice/mod.rs impl="impl SubDevice" name=eeprom_read_raw subst="MainDevice<'_>=>MainDevice" truncate_casts=1 props=C12
+    ensures
+        final(buf)@.len() == old(buf)@.len(),
+        // a request that lies inside the 64 KiB the byte cursor can address is answered completely, byte for byte, from THIS
+        // device's EEPROM starting at byte 2 * start_word; the rest of the buffer is untouched
+        r is Ok && old(buf)@.len() <= 0xffff && 2 * start_word + 2 * ((old(buf)@.len() + 1) / 2) <= 0xffff ==> r->Ok_0 == old(buf)@.len()
+            && final(buf)@ =~= stored(self.configured_address, start_word, old(buf)@.len() as int),
+        // in every case: what is reported as read IS the stored bytes
+        r is Ok ==> r->Ok_0 <= old(buf)@.len() && forall|i: int| 0 <= i < r->Ok_0 ==> final(buf)@[i] == eeprom_of(self.configured_address).byte(2 * start_word + i),
+@*/
+/*@fn file=src/subdevice/mod.rs impl="impl SubDevice" name=eeprom_read subst="MainDevice<'_>=>MainDevice@@T::PACKED_LEN=>T::packed_len_exec()" truncate_casts=1 props=C12
+    ensures
+        // the value is decoded from exactly the PACKED_LEN bytes stored at byte 2 * start_word of THIS device's EEPROM
+        r is Ok ==> T::packed_len() <= 0xffff ==> Ok::<T, WireError>(r->Ok_0) == T::unpack_spec(stored(self.configured_address, start_word, T::packed_len() as int)),
+@after "reader.read_exact(buf.as_mut()).await?;"
+    proof {
+        if T::packed_len() <= 0xffff {
+            if T::packed_len() > 0 { assert(2 * start_word <= 0xffff); }
+            assert(buf.v@ =~= stored(self.configured_address, start_word, T::packed_len() as int));
+        }
+    }
+@try "T::unpack_from_slice(buf.as_ref())?"
+@*/
+/*@fn file=src/subdevice/mod.rs impl="impl SubDevice" name=eeprom_write_dangerously subst="MainDevice<'_>=>MainDevice@@T::PACKED_LEN=>T::packed_len_exec()" truncate_casts=1 props=C14
+    requires
+        // (outside this range the byte cursor saturates at 0xffff, EepromRange::write reports 0 bytes written and the dependency's
+        // write_all panics - an API-argument panic, not one of the listed properties; see DESIGN 0.3 "observations")
+        T::packed_len() <= 0xffff, 2 * start_word + 2 * ((T::packed_len() + 1) / 2) <= 0xffff,
+    ensures
+        // every word of the packed value goes to consecutive word addresses from start_word of THIS device (odd tail zero-padded)
+        r is Ok ==> forall|i: int| 0 <= i < (T::packed_len() + 1) / 2 ==>
+            #[trigger] word_written(eeprom_of(self.configured_address).dev(), (start_word + i) as u16, value.packed()[2 * i], word_hi(value.packed(), i)),
+@*/
+/*@fn file=src/subdevice/mod.rs impl="impl SubDevice" name=set_alias_address subst="MainDevice<'_>=>MainDevice" props=C14
+    ensures
+        final(self).configured_address == old(self).configured_address,
+        // the cached alias changes only together with the EEPROM (alias word 4 + checksum word 7 of THIS device)
+        r is Ok ==> final(self).alias_address == new_alias
+            && word_written(eeprom_of(old(self).configured_address).dev(), 4, (new_alias % 256) as u8, (new_alias / 256) as u8)
+            && word_written(eeprom_of(old(self).configured_address).dev(), 7, crc8_etg(header_after(eeprom_of(old(self).configured_address), new_alias)), 0),
+        r is Err ==> final(self).alias_address == old(self).alias_address,
 @*/
 }
 
